@@ -19,6 +19,8 @@ Step == /\ l <= Len(Trace) /\ l' = l + 1
                         \* every proposer of a catalogue change is answered once its entry is applied (stale = 1: with the log
                         \* drained and idle for 3 s a goroutine still waits in DatasetManager for the outcome of its proposal -
                         \* the allocator's node-change worker, whose context ends at shutdown only, is then blocked for good)
+                        \* every running raft group belongs to a loaded partition of a dataset in the catalogue (extragroups: groups beyond those)
+                        \cup (IF t.stalled = 0 /\ t.extragroups > 0 THEN {<<l, "GroupOutlivesPartition">>} ELSE {})
                         \cup (IF t.stalled = 0 /\ t.stale > 0 THEN {<<l, "ProposalNeverAnswered">>} ELSE {})
 Spec == Init /\ [][Step]_vars
 Report == l = Len(Trace) + 1 => PrintT(<<"VIOL", ToJson([n |-> Len(Trace), v |-> viol])>>)
